@@ -187,6 +187,8 @@ def main():
                 for r in run(d, sys.argv[2:] or None):
                     print(json.dumps(r), flush=True)
                     rows.append(r)
+                    with open(os.environ.get("SEED_RESULTS", os.path.join(root, "RESULTS.jsonl")), "a") as f:
+                        f.write(json.dumps(r) + "\n")
         caught = sum(1 for r in rows if r.get("exit") == 1 and r.get("violations"))
         print("caught %d of %d" % (caught, len(rows)))
     return 0
